@@ -228,6 +228,7 @@ func rulesTranslate(c *Ctx, r *Report, g *ssa.Global, codon map[[3]int64]int64) 
 	r.check(okLoop && bound == "builtin:len(P1)", "VSA-TR", where, "codon loop", c.pos(iphi.Pos()), "i = 0, 3, 6, … while i < len(src): every codon once, in order", "codon loop is not `for i := 0; i < len(src); i += 3` (step ok: "+fmt.Sprint(okLoop)+", bound "+bound+")")
 	// length guard: len(src)%3 != 0 => panic, dominating the loop
 	okLen := false
+	var guardBlk *ssa.BasicBlock
 	for _, b := range f.Blocks {
 		iff, ok := b.Instrs[len(b.Instrs)-1].(*ssa.If)
 		if !ok {
@@ -253,9 +254,22 @@ func rulesTranslate(c *Ctx, r *Report, g *ssa.Global, codon map[[3]int64]int64) 
 		}
 		if blockAlwaysPanics(bad) && b.Dominates(iphi.Block()) {
 			okLen = true
+			guardBlk = b
 		}
 	}
 	r.check(okLen, "VSA-TR", where, "length guard", c.pos(f.Pos()), "`len(src) % 3 != 0` panics before the first codon is read", "no dominating `len(src) % 3 != 0 => panic` guard")
+	if guardBlk != nil {
+		// no return escapes the guard, except one taken only for empty input (a multiple of 3)
+		var early []string
+		for _, rt := range returnsNotBehind(f, guardBlk) {
+			if !dominatedByLenZero(rt.Block(), s, "builtin:len(P1)") {
+				early = append(early, c.pos(rt.Pos()))
+			}
+		}
+		r.check(len(early) == 0, "VSA-TR", where, "length guard before every return", c.pos(f.Pos()),
+			"every return lies behind the length guard (or is taken for empty input only): no length that is not a multiple of 3 is accepted silently",
+			fmt.Sprintf("return(s) at %v are reachable without passing the `len(src) %% 3` guard: some lengths not divisible by 3 return normally instead of panicking", early))
+	}
 	// element fold: all stores into buf[j] are in the element loop (here or in a helper that receives &buf);
 	// compute T over 256 bytes
 	foldFn, foldBuf := f, ssa.Value(buf)
@@ -624,4 +638,60 @@ func codonFoldTable(c *Ctx, fn *ssa.Function, bufVal ssa.Value) (T []int64, pos 
 		T[k] = e.cell.v
 	}
 	return T, pos, "", false
+}
+
+// returnsNotBehind lists the returns of f that are not dominated by the guard block.
+func returnsNotBehind(f *ssa.Function, guard *ssa.BasicBlock) []*ssa.Return {
+	var out []*ssa.Return
+	instrs(f, func(in ssa.Instruction) {
+		if rt, ok := in.(*ssa.Return); ok && !guard.Dominates(rt.Block()) {
+			out = append(out, rt)
+		}
+	})
+	return out
+}
+
+// dominatedByLenZero: blk is reachable only through the edge of a comparison that makes `lenExpr` zero
+// (== 0 true edge, != 0 / > 0 false edge, < 1 true edge).
+func dominatedByLenZero(blk *ssa.BasicBlock, s *symb, lenExpr string) bool {
+	for cur := blk; cur != nil && cur.Idom() != nil; cur = cur.Idom() {
+		d := cur.Idom()
+		iff, ok := lastInstr(d).(*ssa.If)
+		if !ok || len(cur.Preds) != 1 || cur.Preds[0] != d {
+			continue
+		}
+		edge := 0
+		if d.Succs[1] == cur && d.Succs[0] != cur {
+			edge = 1
+		}
+		bo, ok := iff.Cond.(*ssa.BinOp)
+		if !ok {
+			continue
+		}
+		x, y, op := bo.X, bo.Y, bo.Op
+		if _, isC := x.(*ssa.Const); isC {
+			x, y = y, x
+			switch op {
+			case token.LSS:
+				op = token.GTR
+			case token.GTR:
+				op = token.LSS
+			case token.LEQ:
+				op = token.GEQ
+			case token.GEQ:
+				op = token.LEQ
+			}
+		}
+		k, isK := cInt(constVal(y))
+		if !isK || s.expr(x).String() != lenExpr {
+			continue
+		}
+		switch {
+		case edge == 0 && (op == token.EQL && k == 0 || op == token.LSS && k == 1 || op == token.LEQ && k == 0):
+			return true
+		case edge == 1 && (op == token.NEQ && k == 0 || op == token.GTR && k == 0 || op == token.GEQ && k == 1):
+			return true
+		}
+	}
+	return false
 }
